@@ -7,9 +7,15 @@
 //   SKIPPED <reason>      (only after three cases ran into the step bound: the check has its violations by then)
 //
 // Case file, one case per line (blank-separated):
-//   sem <initial> <strategy> <spurious> <seed> [choices=c,c,..] | <call> <call> .. | <call> .. | ..     (one "|" block per thread)
-//        call = S (signal())  SN,<n> (signal(n))  W,<delta>,<slack> (wait)  T,<delta>,<slack> (try_acquire)
-//   bm|bs <yield 0|1> <strategy> <spurious> <seed> [choices=..] | <gens thread 1> <gens thread 2> ..     (n = number of threads)
+//   sem <initial> <strategy> <spurious> <seed> [choices=c,c,..] [ctor=K] | <call> <call> .. | <call> .. | ..   (one "|" block per thread)
+//        call = S (signal())  SN,<n> (signal(n))  W,<delta>,<slack> (wait(delta, slack))  W1,<delta> (wait(delta))  W0 (wait())
+//               T,<delta>,<slack> (try_acquire(delta, slack))  T1,<delta> (try_acquire(delta))  T0 (try_acquire())
+//        ctor: 0 Semaphore(initial)   1 Semaphore() (initial must be 0)   2 move-constructed from Semaphore(initial)
+//              3 Semaphore(7), then move-assigned from Semaphore(initial)
+//   bm|bs <ymode> <strategy> <spurious> <seed> [choices=..] [sil=<bits>] [stepq=1] | <gens thread 1> <gens thread 2> ..   (n = number of threads)
+//        ymode: 0 wait   1 wait_yield   2 mixed: worker t (0-based) crosses generation g with wait_yield iff (t + g + seed) odd
+//        sil: bit g = 1: generation g is crossed WITHOUT a lambda (wait() / wait_yield(), default NoOperation)
+//        stepq: spin barrier only: every thread calls the accessor step() after each crossing (an atomic load event)
 // Logical thread 0 is the main thread (spawns and joins only); workers are 1..n in spawn order.
 // Every case runs in a forked child (batches: a child continues with the following cases until one deadlocks,
 // because the shim ends the process with status 3 at a rest state).
@@ -31,7 +37,7 @@
 #include <tlx/thread_barrier_mutex.hpp>
 #include <tlx/thread_barrier_spin.hpp>
 
-struct Call { char kind; size_t a, b; };   // kind: S, N, W, T
+struct Call { char kind; size_t a, b; int form; };   // kind: S, N, W, T; form: 2 = both arguments, 1 = delta only, 0 = defaults
 
 struct Case {
     std::string kind;           // sem / bm / bs
@@ -39,6 +45,7 @@ struct Case {
     int yield = 0;              // barriers
     int strategy = 0; bool spurious = false; unsigned long long seed = 0;
     std::vector<int> choices; bool have_choices = false;
+    int ctor = 0; std::string sil; int stepq = 0;
     std::vector<std::vector<Call>> progs;   // sem
     std::vector<int> gens;                  // barriers
     std::string bad;
@@ -61,25 +68,35 @@ static Case parse(const std::string& line) {
     else if (c.kind == "bm" || c.kind == "bs") { num(v); c.yield = static_cast<int>(v); }
     else { c.bad = "kind"; return c; }
     num(v); c.strategy = static_cast<int>(v); num(v); c.spurious = v != 0; num(v); c.seed = v;
-    if (i < toks.size() && toks[i].rfind("choices=", 0) == 0) {
-        c.have_choices = true;
-        for (auto& x : split(toks[i].substr(8), ',')) if (!x.empty()) c.choices.push_back(atoi(x.c_str()));
-        ++i;
+    for (; i < toks.size() && toks[i] != "|"; ++i) {
+        if (toks[i].rfind("choices=", 0) == 0) {
+            c.have_choices = true;
+            for (auto& x : split(toks[i].substr(8), ',')) if (!x.empty()) c.choices.push_back(atoi(x.c_str()));
+        }
+        else if (toks[i].rfind("ctor=", 0) == 0) c.ctor = atoi(toks[i].c_str() + 5);
+        else if (toks[i].rfind("sil=", 0) == 0) c.sil = toks[i].substr(4);
+        else if (toks[i].rfind("stepq=", 0) == 0) c.stepq = atoi(toks[i].c_str() + 6);
+        else { c.bad = "header " + toks[i]; return c; }
     }
     if (!c.bad.empty()) return c;
     if (i >= toks.size() || toks[i] != "|") { c.bad = "no |"; return c; }
     if (c.kind == "sem") {
         for (; i < toks.size(); ++i) {
             if (toks[i] == "|") { c.progs.emplace_back(); continue; }
-            auto p = split(toks[i], ','); Call k{'?', 0, 0};
+            auto p = split(toks[i], ','); Call k{'?', 0, 0, 2};
             if (p[0] == "S" && p.size() == 1) k.kind = 'S';
             else if (p[0] == "SN" && p.size() == 2) { k.kind = 'N'; k.a = strtoull(p[1].c_str(), nullptr, 10); }
             else if (p[0] == "W" && p.size() == 3) { k.kind = 'W'; k.a = strtoull(p[1].c_str(), nullptr, 10); k.b = strtoull(p[2].c_str(), nullptr, 10); }
             else if (p[0] == "T" && p.size() == 3) { k.kind = 'T'; k.a = strtoull(p[1].c_str(), nullptr, 10); k.b = strtoull(p[2].c_str(), nullptr, 10); }
+            else if (p[0] == "W1" && p.size() == 2) { k.kind = 'W'; k.form = 1; k.a = strtoull(p[1].c_str(), nullptr, 10); }
+            else if (p[0] == "T1" && p.size() == 2) { k.kind = 'T'; k.form = 1; k.a = strtoull(p[1].c_str(), nullptr, 10); }
+            else if (p[0] == "W0" && p.size() == 1) { k.kind = 'W'; k.form = 0; }
+            else if (p[0] == "T0" && p.size() == 1) { k.kind = 'T'; k.form = 0; }
             else { c.bad = "call " + toks[i]; return c; }
             c.progs.back().push_back(k);
         }
         if (c.progs.empty() || c.progs.size() > 8) c.bad = "threads";
+        if (c.ctor < 0 || c.ctor > 3 || (c.ctor == 1 && c.initial != 0)) c.bad = "ctor";
     } else {
         for (++i; i < toks.size(); ++i) c.gens.push_back(atoi(toks[i].c_str()));
         if (c.gens.empty() || c.gens.size() > 8) c.bad = "threads";
@@ -93,7 +110,11 @@ static int g_inside[16];   // 1 while inside the call
 
 static void run_sem(const Case& c) {
     verif::Sched& s = verif::Sched::get();
-    tlx::Semaphore sem(c.initial);
+    // construction variants (before the scheduler is active: no events); the semaphore under test is `sem`
+    tlx::Semaphore plain(c.initial), dflt, source(c.initial), target(7);
+    tlx::Semaphore moved(std::move(source));           // move constructor
+    if (c.ctor == 3) target = tlx::Semaphore(c.initial);   // move assignment
+    tlx::Semaphore& sem = c.ctor == 0 ? plain : c.ctor == 1 ? dflt : c.ctor == 2 ? moved : target;
     size_t n = c.progs.size();
     for (size_t t = 0; t <= n; ++t) { g_pos[t] = 0; g_inside[t] = 0; }
     s.begin(c.seed, c.strategy, c.spurious, 50000);
@@ -114,8 +135,9 @@ static void run_sem(const Case& c) {
                     switch (p[k].kind) {
                     case 'S': r = sem.signal(); break;
                     case 'N': r = sem.signal(p[k].a); break;
-                    case 'W': r = sem.wait(p[k].a, p[k].b); break;
-                    case 'T': r = sem.try_acquire(p[k].a, p[k].b) ? 1 : 0; break;
+                    case 'W': r = p[k].form == 2 ? sem.wait(p[k].a, p[k].b) : p[k].form == 1 ? sem.wait(p[k].a) : sem.wait(); break;
+                    case 'T': r = (p[k].form == 2 ? sem.try_acquire(p[k].a, p[k].b) : p[k].form == 1 ? sem.try_acquire(p[k].a)
+                                                  : sem.try_acquire()) ? 1 : 0; break;
                     }
                     g_inside[t + 1] = 0; g_pos[t + 1] = static_cast<int>(k + 1);
                     s.note("ret", static_cast<long long>(k), static_cast<long long>(r));
@@ -153,9 +175,14 @@ static void run_bar(const Case& c) {
                     g_pos[t + 1] = g; g_inside[t + 1] = 1;
                     s.note("in", g, 0);
                     auto action = [&s, g]() { s.user("act", g, 0); };   // with a scheduling point: "before anyone is released" is observable
-                    if (c.yield) bar.wait_yield(action); else bar.wait(action);
+                    bool yl = c.yield == 1 || (c.yield == 2 && ((t + static_cast<size_t>(g) + c.seed) % 2 == 1));
+                    bool silent = static_cast<size_t>(g) < c.sil.size() && c.sil[static_cast<size_t>(g)] == '1';
+                    if (silent) { if (yl) bar.wait_yield(); else bar.wait(); }
+                    else { if (yl) bar.wait_yield(action); else bar.wait(action); }
                     g_inside[t + 1] = 0; g_pos[t + 1] = g + 1;
                     s.note("out", g, 0);
+                    if constexpr (std::is_same<Barrier, tlx::ThreadBarrierSpin>::value)
+                        if (c.stepq) (void)bar.step();      // accessor: logged as AL:a0:<value>
                 }
             });
         for (auto& x : th) x.join();
